@@ -27,7 +27,10 @@ THEOREMS_AXIS = ["C08_axis_symmetric_footprint", "C08_axis_symmetric_footprint_d
                  "C08_axis_symmetric_footprint_full", "C08_centroid_on_wind_axis_partial", "C08_centroid_on_wind_axis_noNyq_partial",
                  "C08_axis_symmetric_footprint_x", "C08_axis_symmetric_footprint_x_defect", "C08_axis_symmetric_footprint_x_odd",
                  "C08_axis_symmetric_footprint_x_full", "C08_centroid_on_wind_axis_x_partial", "C08_centroid_on_wind_axis_x_noNyq_partial",
-                 "C08_axis_nonvacuous", "C08_axis_example_applied"]
+                 "C08_axis_nonvacuous", "C08_axis_example_applied",
+                 "C08_centroid_on_wind_axis_any_tower_partial", "C08_centroid_on_wind_axis_any_tower_noNyq_partial",
+                 "C08_centroid_on_wind_axis_any_tower_x_partial", "C08_centroid_on_wind_axis_any_tower_x_noNyq_partial",
+                 "C08_axis_half_cell_nonvacuous"]
 # ... and their connection to compute_wind_fields / the profiles, over R and the complex instance ROps (stdlib real axioms)
 THEOREMS_AXIS_R = ["C08_cardinal_no_crosswind", "C08_cardinal_request", "C08_centroid_cardinal_east_west_partial",
                    "C08_centroid_cardinal_north_south_partial", "C08_cardinal_nonvacuous"]
@@ -486,7 +489,10 @@ def gen_axis_model_cases(ctx):
 
 def check_axis(ctx):
     """the tie of Properties/C08Axis.v (theorems about Model/Solver.v) to the current source"""
-    core.check_properties_file(ctx, "Properties/C08Axis.v", THEOREMS_AXIS + THEOREMS_AXIS_R, {n: core.AX_REALS for n in THEOREMS_AXIS_R})
+    core.check_properties_file(ctx, "Properties/C08Axis.v", THEOREMS_AXIS, core.AX_NONE)
+    # coqchk is not run on this file: it imports the Interval/Coquelicot-based profile proofs (PblProofs), on which the
+    # independent checker does not finish in 20 minutes (as for Properties/C19Num.v); Print Assumptions is compared as usual
+    core.check_properties_file(ctx, "Properties/C08AxisWind.v", THEOREMS_AXIS_R, core.AX_REALS, coqchk=False)
     solverslices.run(ctx)
     cases = gen_axis_model_cases(ctx)
     recs = sc.correspond(ctx, cases, "c08ax_")
